@@ -79,8 +79,16 @@ def argJ : Arg → Json
 
 def callsJ (l : List (List Arg)) : Json := jArr (l.map fun e => jArr (e.map argJ))
 
-def specDictJ (d : List (Key × List ((Nat × PedVerif.Mixins.Name) × Val))) : Json :=
-  jArr (d.map fun kd => jArr [jNat kd.1, jArr (kd.2.map fun sv => jArr ([jNat sv.1.1] ++ nameJ sv.1.2 ++ [jNat sv.2]))])
+/-- how the instance sees the method (class, name) of the table: "bound" | "clsBound" | "plainFn" -/
+def methodTag (t : Table) (c : Nat) (n : PedVerif.Mixins.Name) : String :=
+  match (nsOf t c).find? (fun p => p.1 = n) with
+  | some (_, .func .static _) => "plainFn"
+  | some (_, .func .cls _) => "clsBound"
+  | _ => "bound"
+
+def specDictJ (t : Table) (d : List (Key × List ((Nat × PedVerif.Mixins.Name) × Val))) : Json :=
+  jArr (d.map fun kd => jArr [jNat kd.1, jArr (kd.2.map fun sv =>
+    jArr ([jStr (methodTag t sv.1.1 sv.1.2), jNat sv.1.1] ++ nameJ sv.1.2 ++ [jNat sv.2]))])
 
 def enumOfJ (j : Json) (x : TArg) : Option EnumDesc :=
   match x with
@@ -163,9 +171,9 @@ def handle (c : Json) : Json :=
     let inst : InstNs := (jL (jF c "inst")).map (instEntryOf confs)
     mkObj (common ++ [
       ("deco", resJ dictJ (getDecorated t d cls orig enumOf inst)),
-      ("spec_deco", if specEnum.isSome then specDictJ (expectedDecorated t mro members (inst.map (·.1))) else Json.null),
+      ("spec_deco", if specEnum.isSome then specDictJ t (expectedDecorated t mro members (inst.map (·.1))) else Json.null),
       ("guard", jBool (specEnum.isSome && decoGuard t mro members ia inst)),
-      ("regions", jArr ((guardRegions t mro members ia inst).eraseDups.map jStr)),
+      ("regions", jArr ((guardRegions t mro members ia).eraseDups.map jStr)),
       ("closures_modelled", jBool closuresKeepTheirArgument),
       ("calls", journals user fun apps => (applyApps apps).journal),
       ("spec_calls", journals user (expectedCalls 0))])
